@@ -400,7 +400,7 @@ FIXED = [b"aaaaaaa,b,c", b"aaaaaaa", b"a1,b", b"a[1-3],b", b"a[1-3,07-09],b5", b
 
 # ------------------------------------------------------------------ running
 class PrintRunner:
-    OPS = ["dump", "ptext r", "ptext d", "psweep r +2", "psweep d +2", "pback r", "pback d"]
+    OPS = ["dump", "ptext r", "ptext d", "psweep r +2", "psweep d +2", "pback r", "pback d", "pranges s", "pranges p"]
     EXACT = ["pexact r +2", "pexact d +2"]
 
     # the literal buffer sizes of the two fixed callers (Print.lean WCOLL_STR / XLIST_BUF)
